@@ -184,5 +184,44 @@ fn one(ctx: &Ctx, rep: &mut Report, id: usize, cfg: Cfg, k: usize, leg: &str) {
             }
         }
     }
+    // (v) in a batch whose members share one seed (a wallet scanning its own outputs), RecoverOnly returns the same
+    // masks as RecoverAndVerify, member by member - and for members made with that seed, the true mask
+    {
+        let mut c3 = Case::random(cfg, VALUE_CLASSES[(k + 3) % 6], PROMISE_CLASSES[(k + 1) % 5], true, &mut rng);
+        c3.seed = Some(seed);
+        let c4 = Case::random(cfg, VALUE_CLASSES[(k + 4) % 6], PROMISE_CLASSES[(k + 3) % 5], true, &mut rng);
+        if let (Ok(p3), Ok(p4)) = (c3.prove(&mut prng), c4.prove(&mut prng)) {
+            // members: own proof, another proof under the same seed, a proof made under another seed but scanned
+            // with this one, an unseeded statement in between, the first proof again
+            let ts = vec![t.clone(), c3.transcript(), c4.transcript(), c3.transcript(), t.clone()];
+            let proofs = vec![proof.clone(), p3.clone(), p4.clone(), p3.clone(), proof.clone()];
+            let sts = vec![
+                case.statement_with(&prm, &case.promises, Some(seed)),
+                c3.statement_with(&c3.params(), &c3.promises, Some(seed)),
+                c4.statement_with(&c4.params(), &c4.promises, Some(seed)),
+                c3.statement_with(&c3.params(), &c3.promises, None),
+                case.statement_with(&prm, &case.promises, Some(seed)),
+            ];
+            let both: Vec<Option<Vec<Option<Vec<Scalar>>>>> = [VerifyAction::RecoverAndVerify, VerifyAction::RecoverOnly]
+                .iter()
+                .map(|a| no_panic(|| verify_many(&ts, &sts, &proofs, *a)).ok().and_then(|r| r.ok()).map(|v| v.iter().map(mask_vec).collect()))
+                .collect();
+            rep.eval(&(GROUP, case.key(), "shared-seed-batch"));
+            rep.count("shared_seed_batches", 1);
+            match (&both[0], &both[1]) {
+                (Some(a), Some(b)) => {
+                    if a != b {
+                        let first = (0..a.len().min(b.len())).find(|i| a[*i] != b[*i]);
+                        rep.violation("C10 recover-only-differs shared-seed-batch", &format!("in a batch whose statements share one seed, RecoverOnly and RecoverAndVerify return different masks (first at member {first:?})"), replay("shared-seed batch"));
+                    }
+                    let want = [Some(case.blindings[0].clone()), Some(c3.blindings[0].clone())];
+                    if a.len() != 5 || a[0] != want[0] || a[1] != want[1] || a[4] != want[0] || a[3].is_some() || a[2] == Some(c4.blindings[0].clone()) {
+                        rep.violation("C10 shared-seed-batch-masks", "in a batch whose statements share one seed the masks of members made with that seed are not their blinding vectors (or a member made under another seed yields its true mask, or an unseeded member yields a mask)", replay("shared-seed batch"));
+                    }
+                },
+                _ => rep.violation("C10 shared-seed-batch-rejected", "a valid batch whose statements share one seed was rejected or panicked in a recovering mode", replay("shared-seed batch")),
+            }
+        }
+    }
     rep.sample(GROUP, json!({"case": case.json(), "wrong_seeds": wrongs.iter().map(|w| w.0.clone()).collect::<Vec<_>>()}));
 }
